@@ -9,6 +9,8 @@ import Macaroon.Caveat.Spec
 import Macaroon.Conc.RWMutex
 import Macaroon.Generated.BundleLocks
 import Driver.OpsWire
+import Driver.OpsToken
+import Driver.OpsScope
 
 namespace Driver
 open Macaroon
@@ -66,7 +68,7 @@ def evalOp : Sx → Option String
 def evalLine (line : String) : String :=
   match Sx.parse line with
   | none => "bad-parse"
-  | some sx => ((evalOp sx) <|> (evalOpWire sx)).getD "bad-op"
+  | some sx => ((evalOp sx) <|> (evalOpWire sx) <|> (evalOpToken sx) <|> (evalOpScope sx)).getD "bad-op"
 
 partial def loop (h : IO.FS.Stream) (out : IO.FS.Stream) : IO Unit := do
   let line ← h.getLine
